@@ -1,0 +1,26 @@
+//go:build verif
+
+package sync
+
+import "sync/atomic"
+
+// Hooks for the verification harness. Compiled only with the `verif` build tag.
+
+var verifYieldFn atomic.Pointer[func(string)]
+
+// VerifSetYield installs (or, with nil, removes) the function called at instrumented points: the accesses
+// to the state shared between the syncing routine, the gossip handler and Head callers (pending ranges,
+// the cached store head) and the boundaries of the incomingMu / tailMu critical sections.
+func VerifSetYield(f func(point string)) {
+	if f == nil {
+		verifYieldFn.Store(nil)
+		return
+	}
+	verifYieldFn.Store(&f)
+}
+
+func verifYield(point string) {
+	if f := verifYieldFn.Load(); f != nil {
+		(*f)(point)
+	}
+}
